@@ -35,11 +35,14 @@ structure SemType where
   opt : Bool            -- SubTypeTag::OptionalProp ("the property is absent")
   mapping : Sub Bdd
   list : Sub Bdd
-  other : Bool          -- every other tag, as a whole
+  /-- `VoidUndefined`: a literal set over {"undefined", "void"} (only "undefined" occurs in the fragment, so the
+  `undefined ⊆ void` relation of subtype.rs never matters) -/
+  vu : Sub LitSet
+  other : Bool          -- every other tag (bigint, date, typed arrays, Map, Set), as a whole
   deriving DecidableEq, Repr, Inhabited
 
-def never : SemType := ⟨.none, .none, .none, false, false, .none, .none, false⟩
-def unknown : SemType := ⟨.all, .all, .all, true, true, .all, .all, true⟩
+def never : SemType := ⟨.none, .none, .none, false, false, .none, .none, .none, false⟩
+def unknown : SemType := ⟨.all, .all, .all, true, true, .all, .all, .all, true⟩
 def optionalProp : SemType := { never with opt := true }
 
 /-- `SemType::is_never`: structurally nothing (a diagram that happens to be empty does not count) -/
@@ -106,6 +109,7 @@ def inter (a b : SemType) : Option SemType := do
          opt := a.opt && b.opt
          mapping := ← subInter bddInter a.mapping b.mapping
          list := ← subInter bddInter a.list b.list
+         vu := ← subInter (fun x y => some (litInter x y)) a.vu b.vu
          other := a.other && b.other }
 
 def union (a b : SemType) : Option SemType := do
@@ -116,6 +120,7 @@ def union (a b : SemType) : Option SemType := do
          opt := a.opt || b.opt
          mapping := ← subUnion bddUnion a.mapping b.mapping
          list := ← subUnion bddUnion a.list b.list
+         vu := ← subUnion (fun x y => some (litUnion x y)) a.vu b.vu
          other := a.other || b.other }
 
 def diff (a b : SemType) : Option SemType := do
@@ -126,6 +131,7 @@ def diff (a b : SemType) : Option SemType := do
          opt := a.opt && !b.opt
          mapping := ← subDiff (Bdd.complement fuelB) bddDiff a.mapping b.mapping
          list := ← subDiff (Bdd.complement fuelB) bddDiff a.list b.list
+         vu := ← subDiff (fun x => some (litCompl x)) (fun x y => some (litDiff x y)) a.vu b.vu
          other := a.other && !b.other }
 
 def complement (a : SemType) : Option SemType := diff unknown a
@@ -231,7 +237,7 @@ mutual
 def isEmpty : Nat → SemType → SM Bool
   | 0, _ => SM.fail
   | n+1, t =>
-    if t.bool != .none || t.num != .none || t.str != .none || t.null || t.opt || t.other then pure false
+    if t.bool != .none || t.num != .none || t.str != .none || t.null || t.opt || t.vu != .none || t.other then pure false
     else if t.mapping == .all || t.list == .all then pure false
     else do
       -- subtype_data is ordered by tag code: Mapping (1<<5) before List (1<<7)
@@ -466,6 +472,7 @@ def convert (named : Named) : Nat → List String → IR → SM SemType
     | .number => pure { never with num := .all }
     | .any => pure unknown
     | .never => pure never
+    | .undefined => pure { never with vu := .some ⟨true, ["undefined"]⟩ }
     | .tpl [.lit s] => pure { never with str := .some ⟨true, [s]⟩ }
     | .const c => SM.lift (litOfConst c)
     | .object vs ix => do
@@ -514,5 +521,11 @@ def convertVs (named : Named) : Nat → List String → List (String × Bool × 
     let xs ← convertVs named n seen vs
     pure ((k, if req then x else makeOptional x) :: xs)
 end
+
+/-- integer value of a canonical number text (non-negative integers) -/
+def natOfCanonS (s : String) : Option Nat :=
+  s.toList.foldl (fun acc ch => match acc with
+    | none => none
+    | some n => if ch.isDigit then some (n * 10 + (ch.toNat - 48)) else none) (some 0)
 
 end BeffVerif.Sem
